@@ -25,6 +25,7 @@ LEAN_TARGETS = ["NfcVerif.Props.C14", "drv_c14"]
 THEOREMS = [
     "NfcVerif.C14.pn53x_build_valid",
     "NfcVerif.C14.pn53x_accept_sound",
+    "NfcVerif.C14.pn53x_accept_complete",
     "NfcVerif.C14.pn53x_accept_documented",
     "NfcVerif.C14.acr122_build_valid",
     "NfcVerif.C14.acr122_accept_sound",
